@@ -69,10 +69,10 @@ def byte_plan(cmd, oracle):
             native("native-sse2-dispatch", cmd, procs=4, force=1, only="top"),
             native("native-fallback-dispatch", cmd, procs=4, force=2, only="top"),
             wasm("wasm-simd128", cmd),
-            miri("miri-x86_64", cmd, "miri-x86_64", procs=8, of=700),
-            miri("miri-aarch64-neon", cmd, "miri-aarch64", procs=8, of=700),
-            miri("miri-s390x-be", cmd, "miri-s390x", procs=4, of=300),
-            miri("miri-i686", cmd, "miri-i686", procs=4, of=300),
+            miri("miri-x86_64", cmd, "miri-x86_64", procs=8, of=400),
+            miri("miri-aarch64-neon", cmd, "miri-aarch64", procs=8, of=400),
+            miri("miri-s390x-be", cmd, "miri-s390x", procs=4, of=160),
+            miri("miri-i686", cmd, "miri-i686", procs=4, of=160),
         ],
         "thorough": [
             native("native", cmd, bitmap=True, timeout=7200),
@@ -122,8 +122,8 @@ def sub_plan(cmd, oracle):
             native("native-sse2", cmd, procs=8, force=1),
             native("native-fallback", cmd, procs=8, force=2),
             wasm("wasm-simd128", cmd),
-            miri("miri-x86_64", cmd, "miri-x86_64", procs=8, of=600),
-            miri("miri-aarch64-neon", cmd, "miri-aarch64", procs=8, of=600),
+            miri("miri-x86_64", cmd, "miri-x86_64", procs=8, of=320),
+            miri("miri-aarch64-neon", cmd, "miri-aarch64", procs=8, of=320),
         ],
         "thorough": [
             native("native", cmd, bitmap=True, timeout=7200),
@@ -177,8 +177,8 @@ PLANS["C05"] = {
         + c05_native("rel", 1200)
         + [wasm("wasm-memend-%s" % p_, "C05", part=p_, **{"as": "C05"}) for p_ in ("bytes", "iters", "sub", "blocks")]
         + [miri("miri-x86_64-rel-mismatch", "C05", "miri-x86_64-rel", procs=6, of=40, part="mismatch"),
-           miri("miri-x86_64-rel-bytes", "C05", "miri-x86_64-rel", procs=6, of=3000, part="bytes"),
-           miri("miri-aarch64-rel-bytes", "C05", "miri-aarch64-rel", procs=4, of=3000, part="bytes")]
+           miri("miri-x86_64-rel-bytes", "C05", "miri-x86_64-rel", procs=6, of=1600, part="bytes"),
+           miri("miri-aarch64-rel-bytes", "C05", "miri-aarch64-rel", procs=4, of=1600, part="bytes")]
     ),
     "thorough": (
         [native("fault-reporter-selftest", "selftest-fault", procs=1)]
@@ -188,11 +188,16 @@ PLANS["C05"] = {
         + [wasm("wasm-memend-%s" % p_, "C05", procs=16, timeout=7200, part=p_, **{"as": "C05"}) for p_ in C05_PARTS]
         + [native("asan-%s" % p, "C05", config="asan", kind="asan", timeout=7200, part=p, place="heap", **{"as": "C05"})
            for p in C05_PARTS]
-        + [miri("miri-%s-%s" % (cfg.replace("miri-", ""), part), "C05", cfg, procs=procs, of=of, timeout=5400, part=part)
-           for (cfg, procs, ofs) in [("miri-x86_64-rel", 16, None), ("miri-x86_64", 8, None),
-                                     ("miri-x86_64-avx2-rel", 16, None), ("miri-aarch64-rel", 16, None),
-                                     ("miri-s390x", 8, None), ("miri-i686", 8, None)]
-           for (part, of) in [("mismatch", 16), ("bytes", 400), ("iters", 48), ("sub", 100), ("blocks", 100), ("misc", 48)]]
+        + [miri("miri-%s-%s" % (cfg.replace("miri-", ""), part), "C05", cfg, procs=16, of=of, timeout=5400, part=part)
+           for (cfg, parts) in [
+               ("miri-x86_64-rel", ["mismatch", "bytes", "iters", "sub", "blocks", "misc"]),
+               ("miri-x86_64-avx2-rel", ["mismatch", "bytes", "iters", "sub", "blocks", "misc"]),
+               ("miri-aarch64-rel", ["mismatch", "bytes", "iters", "sub", "blocks", "misc"]),
+               ("miri-x86_64", ["mismatch", "bytes"]),
+               ("miri-s390x", ["bytes", "sub"]),
+               ("miri-i686", ["bytes", "sub"])]
+           for (part, of) in [("mismatch", 16), ("bytes", 400), ("iters", 64), ("sub", 128), ("blocks", 320), ("misc", 48)]
+           if part in parts]
     ),
 }
 
@@ -235,7 +240,7 @@ PLANS["C06"] = iter_plan(
     "count ops) over long dense/sparse haystacks. size_hint is checked after every operation. Non-trivial = "
     "haystack non-empty.",
     "model = deque of all matching positions: next pops the front, next_back the back; size_hint must bracket the deque length",
-    80, 8)
+    48, 8)
 
 PLANS["C07"] = iter_plan(
     "C07",
@@ -245,7 +250,7 @@ PLANS["C07"] = iter_plan(
     "count() on a clone, for every (i, j) up to a cap, on haystacks with 1..=all matching bytes. Non-trivial = "
     "haystack non-empty.",
     "oracle = number of bytes equal to the needle in the iterator's remaining window (deque model)",
-    40, 6)
+    24, 6)
 
 PLANS["C08"] = iter_plan(
     "C08",
@@ -257,7 +262,7 @@ PLANS["C08"] = iter_plan(
     "exhaustion plus three further calls, size_hint is checked before every next(), clone/into_owned ops are "
     "sprinkled in. Non-trivial = haystack non-empty.",
     "model = greedy non-overlapping sequence computed from all occurrences (KMP), mirrored for rfind_iter; empty needle = every offset",
-    200, 6)
+    120, 24)
 PLANS["C08"]["quick"][0]["require_cells"] = ["pre_went_inert"]
 PLANS["C08"]["thorough"][0]["require_cells"] = ["pre_went_inert"]
 
@@ -289,7 +294,8 @@ PLANS["C09"] = {
         + [wasm("cfg-wasm32-simd128", "C09", procs=16, transcript="auto")]
         + [native("cfgB-default-native", "C09", config="rel", procs=640, tier="miri", transcript="auto"),
            miri("cfgB-miri-aarch64-neon", "C09", "miri-aarch64", procs=8, of=640, transcript="auto"),
-           miri("cfgB-miri-s390x-be", "C09", "miri-s390x", procs=6, of=640, transcript="auto")]
+           miri("cfgB-miri-s390x-be", "C09", "miri-s390x", procs=6, of=640, transcript="auto"),
+           miri("cfgB-miri-i686", "C09", "miri-i686", procs=4, of=640, transcript="auto")]
     ),
     "thorough": (
         [native("cfg-" + n, "C09", config=c, bitmap=(i == 0), timeout=7200, transcript="auto", **a) for i, (n, c, a) in enumerate(C09_NATIVE)]
@@ -346,7 +352,7 @@ PLANS["C10"] = sub3(
     "settings. The forced-fallback stage makes Searcher::new build the portable prefilter (rank cut-off 250). "
     "Non-trivial = both slices non-empty.",
     "oracle = naive leftmost occurrence / greedy sequence; all configurations must equal it, hence each other",
-    1000, 40, ["pre_went_inert", "pre_find_simple", "kind_two_way", "kind_two_way_pre"])
+    600, 120, ["pre_went_inert", "pre_find_simple", "kind_two_way", "kind_two_way_pre"])
 
 PLANS["C11"] = sub3(
     "C11",
@@ -356,7 +362,7 @@ PLANS["C11"] = sub3(
     "fillers {absent byte, shuffled needle bytes, byte1 only, byte2 only, alternating byte1/byte2, near matches} x first "
     "occurrence planted at boundary offsets (every offset for short haystacks) or absent. Non-trivial = always.",
     "oracle: needle occurs at p => Some(c) with c <= p; None => no occurrence; Some(c) => both pair bytes present at c+index1, c+index2",
-    800, 8)
+    500, 48)
 
 PLANS["C12"] = sub3(
     "C12",
@@ -367,7 +373,7 @@ PLANS["C12"] = sub3(
     "last-32-bytes-equal windows for Rabin-Karp), seeded random pairs, explicit index pairs. Non-trivial = both "
     "slices non-empty.",
     "oracle = naive leftmost / rightmost occurrence; constructors: shiftor Some iff len<=15, packedpair::new None iff len<2",
-    1000, 64, ["tw_fwd_small", "tw_fwd_large", "tw_rev_small", "tw_rev_large", "rk_fwd_confirm_fail", "pp_tail_hit"])
+    600, 128, ["tw_fwd_small", "tw_fwd_large", "tw_rev_small", "tw_rev_large", "rk_fwd_confirm_fail", "pp_tail_hit"])
 
 # ---------------------------------------------------------------------------
 # C13
@@ -486,7 +492,7 @@ PLANS["C16"] = {
         native("native", "C16", bitmap=True),
         native("native-fallback", "C16", procs=8, force=2),
         wasm("wasm-simd128", "C16"),
-        miri("miri-x86_64", "C16", "miri-x86_64", procs=6, of=60),
+        miri("miri-x86_64", "C16", "miri-x86_64", procs=6, of=36),
     ],
     "thorough": [
         native("native", "C16", bitmap=True, timeout=7200),
@@ -542,8 +548,8 @@ PLANS["C18"] = {
         native("native", "C18", bitmap=True),
         native("native-dbg", "C18", config="dbg", procs=8),
         wasm("wasm32", "C18"),
-        miri("miri-x86_64", "C18", "miri-x86_64", procs=4, of=32),
-        miri("miri-s390x-be", "C18", "miri-s390x", procs=4, of=32),
+        miri("miri-x86_64", "C18", "miri-x86_64", procs=4, of=20),
+        miri("miri-s390x-be", "C18", "miri-s390x", procs=4, of=20),
     ],
     "thorough": [
         native("native", "C18", bitmap=True, timeout=3600),
@@ -566,7 +572,7 @@ PLANS["C19"] = {
         native("native", "C19", bitmap=True),
         native("native-dbg", "C19", config="dbg", procs=8),
         wasm("wasm-simd128", "C19"),
-        miri("miri-x86_64", "C19", "miri-x86_64", procs=4, of=24),
+        miri("miri-x86_64", "C19", "miri-x86_64", procs=4, of=14),
     ],
     "thorough": [
         native("native", "C19", bitmap=True, timeout=3600),
@@ -716,3 +722,19 @@ def post_c17(out, plan, vlib):
 
 
 PLANS["C17"]["post"] = post_c17
+
+
+def post_c05(out, plan, vlib):
+    start = {k[len("hay_start_mod64_"):]: v for k, v in out.counters.items() if k.startswith("hay_start_mod64_")}
+    end = {k[len("hay_end_mod64_"):]: v for k, v in out.counters.items() if k.startswith("hay_end_mod64_")}
+    out.extra_evidence = {
+        "alignment_histogram": {"haystack_start_mod_64": start, "haystack_end_mod_64": end},
+        "placements": {k: v for k, v in out.counters.items() if k.startswith("placed_")},
+        "faults": sum(1 for v in out.violations if v.get("kind") == "fault"),
+    }
+    for k in list(out.counters):
+        if k.startswith("hay_start_mod64_") or k.startswith("hay_end_mod64_"):
+            del out.counters[k]
+
+
+PLANS["C05"]["post"] = post_c05
